@@ -6,5 +6,6 @@ if ! git diff --quiet; then echo "/repo has uncommitted changes"; exit 1; fi
 if ! git apply --check $M/patch.diff; then echo "PATCH DOES NOT APPLY"; exit 1; fi
 git apply $M/patch.diff
 cd /verif
+export VERIF_EVIDENCE_DIR=/tmp/verif-seed-evidence; mkdir -p $VERIF_EVIDENCE_DIR
 for p in "$@"; do ./vcheck run $p 2>&1 | grep -E "^(VIOLATION|OK|INCONCLUSIVE|KNOWN|  failed)" | head -8; echo "  -> rc=${PIPESTATUS[0]} ($p)"; done
 git -C /repo checkout -- .
